@@ -102,6 +102,7 @@ def run_sequence(res, blockwise, v0, items, seedchar=b"n", first_delay=0.0):
         v1, t1 = v0, w.clock.time()
         vsent = v0 if v0 is not None else 0
         last_dg = None
+        last_pl, last_fin = None, False
         n = 0
         for it in items:
             n += 1
@@ -115,6 +116,7 @@ def run_sequence(res, blockwise, v0, items, seedchar=b"n", first_delay=0.0):
                 pl = b"n%d" % n
                 mid = srv.notify(vsent, pl, con=con)
                 last_dg = w.pool[-1]
+                last_pl, last_fin = pl, False
                 t2 = w.clock.time()
                 if alive and fresh(v1, t1, vsent, t2):
                     exp_cb.append(pl)
@@ -125,14 +127,22 @@ def run_sequence(res, blockwise, v0, items, seedchar=b"n", first_delay=0.0):
                     continue
                 con = (last_dg.data[0] >> 4) & 3 == rc.CON
                 mid = (last_dg.data[2] << 8) | last_dg.data[3]
+                if len(it) > 1 and it[1]:
+                    w.loop.advance(it[1])       # the copy (same bytes, same message ID) arrives that much later
+                t2 = w.clock.time()
+                # a duplicate carries the same Observe value: fresh only if the clock has moved on by more than 128 s since the
+                # last accepted notification - then it is the freshest arrival and has to be handed over
+                if alive and not last_fin and fresh(v1, t1, vsent, t2):
+                    exp_cb.append(last_pl)
+                    v1, t1 = vsent, t2
                 w.inject(SRV, CLI, last_dg.data)
-                # a duplicate carries the same Observe value: never fresh unless the clock moved on (it did not)
                 pump()
             elif it[0] == "fin":
                 pl = b"fin%d" % n
                 con = it[2] if len(it) > 2 else True
                 mid = srv.notify(None, pl, con=con, code=it[1])
                 last_dg = w.pool[-1]
+                last_pl, last_fin = pl, True
                 if alive:
                     exp_cb.append(pl)
                     exp_end = "cancelled"
@@ -327,6 +337,14 @@ def job(arg):
             for a in small:
                 for b in small:
                     run_sequence(res, bw, 5, (a, ("dup",), b, ("dup",)))
+            # the same datagram (same message ID) again after a pause: stale the first time, fresh by the clock the second time;
+            # and copies of the last notification / of the terminating response after the end
+            for a in small + [("n", -2, 0.0, True), ("n", 0, 0.0, True)]:
+                for gap in (127.9, 128.1, 200.0):
+                    run_sequence(res, bw, 5, (a, ("dup", gap)))
+                    run_sequence(res, bw, 5, (("n", 1, 0.0, True), a, ("dup", gap), ("n", 1, 0.0, False)))
+                for t in terms[:3]:
+                    run_sequence(res, bw, 5, (a, t, ("dup",), ("dup", 128.1)))
             # transport error before the first response
             run_sequence(res, bw, 5, (("icmp0",),))
             run_sequence(res, bw, 5, (("icmp0",), small[0]))
